@@ -1,9 +1,533 @@
-//! stub — not built yet
+//! C13 — poll_at is a sufficient and non-spinning wake-up schedule.
+//!
+//! At EVERY state reached by the explorers below, after the interfaces were polled at t and
+//! report the deadline D = poll_at(t):
+//!  (A) for each probe instant p in {t, t+1us, (t+D)/2, D-1ms, D-1us} with p < D (D = None:
+//!      t+1s, t+1000s, t+10^6 s) a FRESH replay of the history polls at p with no new frame
+//!      and no socket call; nothing may be handed to the device (MLD/IGMP reports excepted,
+//!      they are outside the claim);
+//!  (B) a poll that neither consumed nor produced a frame must leave D = None or D > t.
+//! Part 1 wraps the two-endpoint TCP harness (all TCP timers, keep-alive, timeout, delayed
+//! ACK, zero-window probes, TIME-WAIT; raw IP and Ethernet; SLAAC off and on).
+//! Part 2 is a single Ethernet interface with UDP, DNS and DHCPv4 sockets, unresolved
+//! neighbors, pending IPv4 fragments and SLAAC (router advertisements / silence).
+
 use crate::core::*;
-pub fn run(_tier: Tier) -> i32 {
-    eprintln!("harness not built yet");
-    2
+use crate::sim::*;
+use crate::tcp2::{Ev as TEv, Tcp2, Tcp2Cfg};
+use serde_json::json;
+use smoltcp::iface::{Config, Interface, SocketHandle, SocketSet};
+use smoltcp::phy::Medium;
+use smoltcp::socket::{dhcpv4, dns, udp};
+use smoltcp::time::Instant;
+use smoltcp::wire::{EthernetAddress, HardwareAddress, IpAddress, IpCidr, Ipv4Address, Ipv6Address};
+
+fn probe_instants(t: i64, d: Option<i64>) -> Vec<(i64, &'static str)> {
+    let mut v = vec![];
+    match d {
+        Some(d) => {
+            for (p, n) in [(t, "same-instant"), (t + 1, "plus-1us"), (t + (d - t) / 2, "midway"), (d - 1000, "minus-1ms"), (d - 1, "minus-1us")] {
+                if p >= t && p < d && !v.iter().any(|x: &(i64, &str)| x.0 == p) {
+                    v.push((p, n));
+                }
+            }
+        }
+        None => {
+            v.push((t + 1_000_000, "none+1s"));
+            v.push((t + 1_000_000_000, "none+1000s"));
+            v.push((t + 1_000_000_000_000, "none+1e6s"));
+        }
+    }
+    v
 }
-pub fn replay(_art: &serde_json::Value) -> i32 {
+
+/// true for frames the claim excludes: IGMP and MLD reports (the interface does not schedule
+/// them through poll_at)
+fn is_group_report(eth: bool, f: &[u8]) -> bool {
+    let Some(ip) = crate::tcp2::ip_part(eth, f) else { return false };
+    if ip.is_empty() {
+        return false;
+    }
+    match ip[0] >> 4 {
+        4 => ip.len() > 9 && ip[9] == 2,
+        6 => {
+            // MLD: hop-by-hop then ICMPv6 type 143/131/132, or directly ICMPv6
+            if ip.len() < 48 {
+                return false;
+            }
+            let (nh, off) = if ip[6] == 0 { (ip[40], 40 + (ip[41] as usize + 1) * 8) } else { (ip[6], 40) };
+            nh == 58 && ip.len() > off && matches!(ip[off], 130 | 131 | 132 | 143)
+        }
+        _ => false,
+    }
+}
+
+// =======================================================================================
+// Part 1: TCP (wraps tcp2)
+// =======================================================================================
+
+pub struct P1 {
+    inner: Tcp2,
+    hist: Vec<TEv>,
+    probes: u64,
+}
+
+impl P1 {
+    fn run_probes(&mut self, out: &mut Vec<Viol>) {
+        let cfg = self.inner.cfg.clone();
+        let t = self.inner.now;
+        for side in 0..2 {
+            // (B) handled through the spinning flag computed by the settle loop
+            if self.inner.ends[side].spinning {
+                out.push(Viol::new(
+                    format!("C13/spin/tcp2/{}/{}", self.inner.ends[side].state(), self.inner.attribution(side)),
+                    format!(
+                        "{}: poll at t={}us neither received nor transmitted a frame, yet poll_at = {:?} (<= t): an event loop built on poll_at spins",
+                        ["A", "B"][side],
+                        t,
+                        self.inner.poll_at(side)
+                    ),
+                ));
+                continue;
+            }
+            let d = self.inner.poll_at(side);
+            for (p, kind) in probe_instants(t, d) {
+                // fresh replay of the history, then ONE early poll of this side at p
+                let mut f = Tcp2::new(&cfg);
+                let mut dummy = vec![];
+                for e in &self.hist {
+                    f.apply(e, &mut dummy);
+                }
+                f.keep_emitted = true;
+                f.emitted.clear();
+                f.now = p;
+                f.poll_side(side);
+                self.probes += 1;
+                let bad: Vec<&(usize, Vec<u8>)> = f.emitted.iter().filter(|(_, fr)| !is_group_report(cfg.eth, fr)).collect();
+                if !bad.is_empty() {
+                    let what = crate::tcp2::ip_part(cfg.eth, &bad[0].1).map(crate::wirecheck::describe_ip_frame).unwrap_or_else(|| "non-IP frame".into());
+                    out.push(Viol::new(
+                        format!(
+                            "C13/early-poll-transmits/tcp2{}/{}/{}/{}",
+                            if cfg.slaac { "+slaac" } else { "" },
+                            self.inner.ends[side].state(),
+                            self.inner.attribution(side),
+                            if d.is_none() { "deadline-none" } else { "before-deadline" }
+                        ),
+                        format!(
+                            "{}: after the poll at t={}us poll_at = {:?}, but a poll at p={}us ({}) with no new frame and no socket call transmitted {} frame(s), first: {}",
+                            ["A", "B"][side],
+                            t,
+                            d,
+                            p,
+                            kind,
+                            bad.len(),
+                            what
+                        ),
+                    ));
+                    break;
+                }
+            }
+        }
+    }
+}
+
+impl Harness for P1 {
+    type Cfg = Tcp2Cfg;
+    type Ev = TEv;
+    fn new(cfg: &Tcp2Cfg) -> P1 {
+        P1 { inner: Tcp2::new(cfg), hist: vec![], probes: 0 }
+    }
+    fn enabled(&self) -> Vec<(TEv, u32)> {
+        self.inner.enabled()
+    }
+    fn apply(&mut self, ev: &TEv, out: &mut Vec<Viol>) {
+        let mut inner_out = vec![];
+        self.inner.apply(ev, &mut inner_out);
+        // violations of other properties are not this check's business
+        out.extend(inner_out.into_iter().filter(|v| v.sig.starts_with("MACHINERY") || v.sig.starts_with("panic/")));
+        self.hist.push(ev.clone());
+        self.run_probes(out);
+    }
+    fn fingerprint(&self) -> u128 {
+        self.inner.fingerprint()
+    }
+    fn outcome(&self) -> String {
+        format!("{} probes{}", self.inner.outcome(), if self.probes > 0 { "" } else { "-none" })
+    }
+}
+
+pub fn p1_configs(tier: Tier) -> Vec<(Tcp2Cfg, u32)> {
+    let b = Tcp2Cfg::base;
+    let k = if tier == Tier::Quick { 2 } else { 3 };
+    let mut v = vec![
+        (Tcp2Cfg { len: [60, 20], ..b("c13-bidir") }, k),
+        (Tcp2Cfg { len: [60, 0], rx: [64, 16], ..b("c13-rx16") }, k),
+        (Tcp2Cfg { len: [60, 20], keep_alive_ms: Some(700), timeout_ms: Some(5000), ..b("c13-keepalive-timeout") }, k),
+        (Tcp2Cfg { len: [40, 10], nagle: false, ack_delay: false, ..b("c13-noackdelay") }, k),
+        (Tcp2Cfg { len: [60, 20], eth: true, ..b("c13-eth") }, k),
+        (Tcp2Cfg { len: [60, 20], eth: true, v6: true, mtu: 1280, ..b("c13-eth-v6") }, k),
+        (Tcp2Cfg { len: [60, 20], eth: true, slaac: true, ..b("c13-eth-slaac") }, k),
+        (Tcp2Cfg { len: [60, 20], eth: true, v6: true, mtu: 1280, slaac: true, ..b("c13-eth-v6-slaac") }, k),
+    ];
+    if tier == Tier::Thorough {
+        v.push((Tcp2Cfg { len: [120, 0], rx: [64, 256], tx: [256, 64], cc: 1, ..b("c13-reno") }, 2));
+        v.push((Tcp2Cfg { len: [20, 9], rx: [8, 8], tx: [16, 16], ..b("c13-rx8") }, 2));
+    }
+    v
+}
+
+// =======================================================================================
+// Part 2: one Ethernet interface with UDP, DNS, DHCPv4, unresolved neighbors, fragments, SLAAC
+// =======================================================================================
+
+#[derive(Clone, Debug)]
+pub struct P2Cfg {
+    pub name: &'static str,
+    pub slaac: bool,
+    pub dhcp: bool,
+    pub mtu: usize,
+}
+
+#[derive(Clone, Debug, PartialEq)]
+pub enum P2Ev {
+    /// advance to poll_at (or +1 s if None) and poll
+    Tick,
+    Plus(i64),
+    UdpToUnresolved,
+    UdpToResolved,
+    UdpBig,
+    DnsQuery,
+    ArpReplyFromPeer,
+    RouterAdvert { lifetime_s: u16, prefix: bool },
+}
+
+pub struct P2 {
+    cfg: P2Cfg,
+    iface: Interface,
+    dev: SimDevice,
+    sockets: SocketSet<'static>,
+    udp: SocketHandle,
+    dns: SocketHandle,
+    now: i64,
+    hist: Vec<P2Ev>,
+    last_poll_quiet: bool,
+    probes: u64,
+}
+
+const MY_MAC: [u8; 6] = [2, 0, 0, 0, 0, 1];
+const PEER_MAC: [u8; 6] = [2, 0, 0, 0, 0, 2];
+
+impl P2 {
+    fn inst(&self) -> Instant {
+        Instant::from_micros(self.now)
+    }
+    /// returns (frames consumed, frames emitted excluding group reports)
+    fn poll(&mut self) -> (usize, usize) {
+        let t = self.inst();
+        let rx_before = self.dev.rx.len();
+        self.iface.poll(t, &mut self.dev, &mut self.sockets);
+        // let the DHCP client apply nothing: configuration changes are application calls
+        let tx = self.dev.take_tx();
+        let n = tx.iter().filter(|(_, f)| !is_group_report(true, f)).count();
+        (rx_before - self.dev.rx.len(), n)
+    }
+    fn poll_at(&mut self) -> Option<i64> {
+        let t = self.inst();
+        self.iface.poll_at(t, &self.sockets).map(|x| x.total_micros())
+    }
+    fn apply_inner(&mut self, ev: &P2Ev) {
+        match ev {
+            P2Ev::Tick => {
+                match self.poll_at() {
+                    Some(d) if d > self.now => self.now = d,
+                    Some(_) => {}
+                    None => self.now += 1_000_000,
+                }
+            }
+            P2Ev::Plus(us) => self.now += *us,
+            P2Ev::UdpToUnresolved => {
+                let s = self.sockets.get_mut::<udp::Socket>(self.udp);
+                let _ = s.send_slice(b"x", (IpAddress::v4(192, 168, 1, 77), 9000));
+            }
+            P2Ev::UdpToResolved => {
+                let s = self.sockets.get_mut::<udp::Socket>(self.udp);
+                let _ = s.send_slice(b"y", (IpAddress::v4(192, 168, 1, 2), 9000));
+            }
+            P2Ev::UdpBig => {
+                let s = self.sockets.get_mut::<udp::Socket>(self.udp);
+                let _ = s.send_slice(&[0x55; 300], (IpAddress::v4(192, 168, 1, 2), 9000));
+            }
+            P2Ev::DnsQuery => {
+                let cx = self.iface.context();
+                let s = self.sockets.get_mut::<dns::Socket>(self.dns);
+                let _ = s.start_query(cx, "a.example", smoltcp::wire::DnsQueryType::A);
+            }
+            P2Ev::ArpReplyFromPeer => {
+                // unsolicited ARP reply 192.168.1.2 is-at PEER_MAC, addressed to us
+                let mut f = vec![];
+                f.extend_from_slice(&MY_MAC);
+                f.extend_from_slice(&PEER_MAC);
+                f.extend_from_slice(&[0x08, 0x06, 0, 1, 8, 0, 6, 4, 0, 2]);
+                f.extend_from_slice(&PEER_MAC);
+                f.extend_from_slice(&[192, 168, 1, 2]);
+                f.extend_from_slice(&MY_MAC);
+                f.extend_from_slice(&[192, 168, 1, 1]);
+                self.dev.rx.push_back(f);
+            }
+            P2Ev::RouterAdvert { lifetime_s, prefix } => {
+                use smoltcp::wire::*;
+                let src = Ipv6Address::new(0xfe80, 0, 0, 0, 0, 0, 0, 0x99);
+                let dst = Ipv6Address::new(0xff02, 0, 0, 0, 0, 0, 0, 1);
+                let ra = NdiscRepr::RouterAdvert {
+                    hop_limit: 64,
+                    flags: NdiscRouterFlags::empty(),
+                    router_lifetime: smoltcp::time::Duration::from_secs(*lifetime_s as u64),
+                    reachable_time: smoltcp::time::Duration::from_millis(0),
+                    retrans_time: smoltcp::time::Duration::from_millis(0),
+                    lladdr: Some(RawHardwareAddress::from_bytes(&PEER_MAC)),
+                    mtu: None,
+                    prefix_info: if *prefix {
+                        Some(NdiscPrefixInformation {
+                            prefix_len: 64,
+                            flags: NdiscPrefixInfoFlags::ON_LINK | NdiscPrefixInfoFlags::ADDRCONF,
+                            valid_lifetime: smoltcp::time::Duration::from_secs(30),
+                            preferred_lifetime: smoltcp::time::Duration::from_secs(20),
+                            prefix: Ipv6Address::new(0x2001, 0xdb8, 0, 1, 0, 0, 0, 0),
+                        })
+                    } else {
+                        None
+                    },
+                };
+                let icmp = Icmpv6Repr::Ndisc(ra);
+                let ip = Ipv6Repr { src_addr: src, dst_addr: dst, next_header: IpProtocol::Icmpv6, payload_len: icmp.buffer_len(), hop_limit: 255 };
+                let mut f = vec![0u8; 14 + 40 + icmp.buffer_len()];
+                f[0..6].copy_from_slice(&[0x33, 0x33, 0, 0, 0, 1]);
+                f[6..12].copy_from_slice(&PEER_MAC);
+                f[12] = 0x86;
+                f[13] = 0xdd;
+                ip.emit(&mut Ipv6Packet::new_unchecked(&mut f[14..54]));
+                icmp.emit(&src, &dst, &mut Icmpv6Packet::new_unchecked(&mut f[54..]), &smoltcp::phy::ChecksumCapabilities::default());
+                self.dev.rx.push_back(f);
+            }
+        }
+        // poll until the interface asks for a later time (bounded)
+        let mut quiet = true;
+        for i in 0..16 {
+            let (rx, tx) = self.poll();
+            quiet = rx == 0 && tx == 0;
+            match self.poll_at() {
+                Some(d) if d <= self.now && !quiet => continue,
+                _ => {}
+            }
+            let _ = i;
+            break;
+        }
+        self.last_poll_quiet = quiet;
+    }
+}
+
+impl Harness for P2 {
+    type Cfg = P2Cfg;
+    type Ev = P2Ev;
+    fn new(cfg: &P2Cfg) -> P2 {
+        let mut dev = SimDevice::new(Medium::Ethernet, cfg.mtu + 14);
+        let mut c = Config::new(HardwareAddress::Ethernet(EthernetAddress(MY_MAC)));
+        c.slaac = cfg.slaac;
+        c.random_seed = 7;
+        let mut iface = Interface::new(c, &mut dev, Instant::from_micros(0));
+        iface.update_ip_addrs(|a| {
+            a.push(IpCidr::new(IpAddress::v4(192, 168, 1, 1), 24)).unwrap();
+            a.push(IpCidr::new(IpAddress::Ipv6(Ipv6Address::new(0xfe80, 0, 0, 0, 0, 0, 0, 1)), 64)).unwrap();
+        });
+        iface.routes_mut().add_default_ipv4_route(Ipv4Address::new(192, 168, 1, 2)).unwrap();
+        let mut sockets = SocketSet::new(vec![]);
+        let mut u = udp::Socket::new(
+            udp::PacketBuffer::new(vec![udp::PacketMetadata::EMPTY; 4], vec![0u8; 1024]),
+            udp::PacketBuffer::new(vec![udp::PacketMetadata::EMPTY; 4], vec![0u8; 1024]),
+        );
+        u.bind(5000).unwrap();
+        let udp = sockets.add(u);
+        let dns = sockets.add(dns::Socket::new(&[IpAddress::v4(192, 168, 1, 53)], vec![]));
+        if cfg.dhcp {
+            sockets.add(dhcpv4::Socket::new());
+        }
+        let mut p = P2 { cfg: cfg.clone(), iface, dev, sockets, udp, dns, now: 0, hist: vec![], last_poll_quiet: false, probes: 0 };
+        // initial poll(s)
+        for _ in 0..4 {
+            p.poll();
+            match p.poll_at() {
+                Some(d) if d <= p.now => continue,
+                _ => break,
+            }
+        }
+        p
+    }
+    fn enabled(&self) -> Vec<(P2Ev, u32)> {
+        let mut v = vec![
+            (P2Ev::Tick, 0),
+            (P2Ev::Plus(500_000), 0),
+            (P2Ev::Plus(61_000_000), 0),
+            (P2Ev::UdpToUnresolved, 0),
+            (P2Ev::UdpToResolved, 0),
+            (P2Ev::UdpBig, 0),
+            (P2Ev::DnsQuery, 0),
+            (P2Ev::ArpReplyFromPeer, 0),
+        ];
+        if self.cfg.slaac {
+            v.push((P2Ev::RouterAdvert { lifetime_s: 30, prefix: true }, 0));
+            v.push((P2Ev::RouterAdvert { lifetime_s: 0, prefix: false }, 0));
+        }
+        v
+    }
+    fn apply(&mut self, ev: &P2Ev, out: &mut Vec<Viol>) {
+        self.apply_inner(ev);
+        self.hist.push(ev.clone());
+        let t = self.now;
+        let d = self.poll_at();
+        let ctx = format!("cfg {} after {:?}", self.cfg.name, ev);
+        // (B)
+        if self.last_poll_quiet {
+            if let Some(dd) = d {
+                if dd <= t {
+                    let cause = self.cause();
+                    out.push(Viol::new(
+                        format!("C13/spin/iface{}/{}", if self.cfg.slaac { "+slaac" } else { "" }, cause),
+                        format!("{}: the poll at t={}us neither received nor transmitted a frame, yet poll_at = {}us <= t", ctx, t, dd),
+                    ));
+                    return;
+                }
+            }
+        }
+        // (A)
+        for (p, kind) in probe_instants(t, d) {
+            let mut f = P2::new(&self.cfg);
+            for e in &self.hist {
+                f.apply_inner(e);
+            }
+            f.now = p;
+            let (_rx, tx) = f.poll();
+            self.probes += 1;
+            if tx > 0 {
+                let cause = self.cause();
+                out.push(Viol::new(
+                    format!("C13/early-poll-transmits/iface{}/{}/{}", if self.cfg.slaac { "+slaac" } else { "" }, cause, if d.is_none() { "deadline-none" } else { "before-deadline" }),
+                    format!("{}: poll_at = {:?} at t={}us, but a poll at p={}us ({}) with no new frame and no socket call transmitted {} frame(s)", ctx, d, t, p, kind, tx),
+                ));
+                break;
+            }
+        }
+    }
+    fn fingerprint(&self) -> u128 {
+        fp128(&format!("{:?}|{}|{}", self.sockets, self.iface.verif_digest(), self.now))
+    }
+    fn outcome(&self) -> String {
+        String::new()
+    }
+}
+
+impl P2 {
+    /// which component has something pending (names the violation; never establishes one)
+    fn cause(&self) -> String {
+        let d = self.iface.verif_digest();
+        let mut c = vec![];
+        if !d.contains("frag[len=0 ") {
+            c.push("fragments-pending");
+        }
+        let u = self.sockets.get::<udp::Socket>(self.udp);
+        if u.send_queue() > 0 {
+            c.push("udp-queued");
+        }
+        if format!("{:?}", self.sockets.get::<dns::Socket>(self.dns)).contains("Pending") {
+            c.push("dns-pending");
+        }
+        if self.cfg.dhcp {
+            c.push("dhcp");
+        }
+        if c.is_empty() {
+            c.push("idle");
+        }
+        c.join("+")
+    }
+}
+
+pub fn run(tier: Tier) -> i32 {
+    let mut rep = Report::new("C13", tier);
+    let lim = Limits { max_states: 50_000_000, max_wall_s: if tier == Tier::Quick { 120.0 } else { 1800.0 } };
+    for (cfg, k) in p1_configs(tier) {
+        let mut samples = vec![];
+        let mut found = vec![];
+        let t0 = std::time::Instant::now();
+        match devbound::<P1>("pollat-tcp2", &cfg, k, 2000, &lim, &mut found, &mut samples) {
+            Ok(st) => {
+                eprintln!("pollat tcp2 cfg={} k<={} runs={} wall={:.1}s", cfg.name, k, st.runs, t0.elapsed().as_secs_f64());
+                rep.absorb(&format!("tcp2 states cfg={} k<={} (5 probe replays per side per state)", cfg.name, k), &st);
+                if rep.samples.len() < 3 {
+                    rep.samples.extend(samples.into_iter().take(1));
+                }
+            }
+            Err(e) => rep.machinery_errors.push(format!("pollat tcp2 {}: {}", cfg.name, e)),
+        }
+        for f in found {
+            if f.viol.sig.starts_with("MACHINERY") {
+                rep.machinery_errors.push(format!("{}: {}", f.viol.sig, f.viol.detail));
+            } else {
+                rep.found.push(f);
+            }
+        }
+    }
+    let d = if tier == Tier::Quick { 5 } else { 7 };
+    for cfg in [
+        P2Cfg { name: "iface", slaac: false, dhcp: false, mtu: 1500 },
+        P2Cfg { name: "iface-frag", slaac: false, dhcp: false, mtu: 120 },
+        P2Cfg { name: "iface-dhcp", slaac: false, dhcp: true, mtu: 1500 },
+        P2Cfg { name: "iface-slaac", slaac: true, dhcp: false, mtu: 1500 },
+        P2Cfg { name: "iface-slaac-frag", slaac: true, dhcp: false, mtu: 120 },
+    ] {
+        let mut samples = vec![];
+        let mut found = vec![];
+        let t0 = std::time::Instant::now();
+        match bfs::<P2>("pollat-iface", &cfg, d, &lim, &mut found, &mut samples) {
+            Ok(st) => {
+                eprintln!("pollat iface cfg={} d<={} states={} wall={:.1}s", cfg.name, d, st.states, t0.elapsed().as_secs_f64());
+                rep.absorb(&format!("interface states cfg={} depth<={}", cfg.name, d), &st);
+                if rep.samples.len() < 6 {
+                    rep.samples.extend(samples);
+                }
+            }
+            Err(e) => rep.machinery_errors.push(format!("pollat iface {}: {}", cfg.name, e)),
+        }
+        for f in found {
+            if f.viol.sig.starts_with("MACHINERY") {
+                rep.machinery_errors.push(format!("{}: {}", f.viol.sig, f.viol.detail));
+            } else {
+                rep.found.push(f);
+            }
+        }
+    }
+    rep.cov("rule", json!("at every state reached (tcp2: all executions with <=k deviations; interface: BFS to depth d) the deadline D = poll_at(t) is probed by fresh replays that poll once at p in {t, t+1us, midway, D-1ms, D-1us} (D=None: t+1s, +1000s, +1e6s): nothing may be transmitted (MLD/IGMP reports excepted); a quiet poll must leave D None or > t"));
+    rep.assumptions.push("IGMP/MLD report frames are filtered out (outside the claim); the device always accepts frames".into());
+    rep.assumptions.push("DHCP configuration events are not applied to the interface in part 2 (they are application calls)".into());
+    rep.finish()
+}
+
+pub fn replay(art: &serde_json::Value) -> i32 {
+    let h = art["replay"]["harness"].as_str().unwrap_or("");
+    let cfgs = art["replay"]["config"].as_str().unwrap_or("");
+    if h == "pollat-tcp2" {
+        for (c, _) in p1_configs(Tier::Thorough) {
+            if format!("{:?}", c) == cfgs {
+                return replay_artifact::<P1>(&c, art);
+            }
+        }
+    } else {
+        for (slaac, dhcp, mtu, name) in [(false, false, 1500, "iface"), (false, false, 120, "iface-frag"), (false, true, 1500, "iface-dhcp"), (true, false, 1500, "iface-slaac"), (true, false, 120, "iface-slaac-frag")] {
+            let c = P2Cfg { name, slaac, dhcp, mtu };
+            if format!("{:?}", c) == cfgs {
+                return replay_artifact::<P2>(&c, art);
+            }
+        }
+    }
+    eprintln!("unknown configuration");
     2
 }
